@@ -126,6 +126,20 @@ def run(facts, R):
         okp = _strip_conv(d["path"])[0] == "arg" and _strip_conv(d["path"])[1] == 1
         R.check(okp, "who-may-publish", cr.path, "guard.path = path", "TempFile remembers %s as its path" % render(d["path"]), s.get("span"))
 
+    # ---------------- cleanup-flag: TempFile.file is the open handle *and* the "not published yet - unlink me on drop" flag.
+    # Only commit() (which renames first... see who-may-publish) and Drop itself may empty it; anything else that sets it to None
+    # (an early `close()`) turns a later failure into a stray temp file
+    fw_allowed = {TF + "::commit": "publishes, then there is nothing to clean", "<%s as std::ops::Drop>::drop" % TF: "the cleanup itself",
+                  TF + "::file_mut": "hands out the handle for writing", TF + "::create": "constructor"}
+    n_fw = 0
+    for w in field_writes(facts, TF, "file"):
+        n_fw += 1
+        owner = w["body"].path
+        R.check(owner in fw_allowed, "who-may-publish", owner, "only commit and Drop empty the temp-file guard",
+                "%s writes TempFile.file (%s): once the handle is gone Drop no longer unlinks the temp file, so a pull that fails afterwards leaves it behind"
+                % (owner.rsplit("::", 2)[-1] if "{closure" not in owner else owner, w["kind"]), w.get("span"), "TempFile.file written only by commit / Drop")
+    R.floor("who-may-publish", n_fw, 3, "writers of TempFile.file")
+
     # ---------------- temp-name-injective: two pulls to different destinations must never spool into the same temp file (the
     # second create truncates the first pull's data, and the first pull's remaining chunks land in what the second has already
     # published).  temp_sibling(p) is p's *whole* file name plus a suffix, in p's directory: built from Path::file_name, never
